@@ -77,7 +77,7 @@ def run_checks(scratch, props, slot, raw=False):
             continue
         mod = importlib.import_module("rules.props." + p)
         ctx = core.Ctx(p, F, "default", "quick")
-        mod.run(ctx)
+        core.run_module(mod, ctx)
         res[p] = [(o.key, o.detail) for o in ctx.obs if not o.ok and (raw or o.key not in KNOWN_KEYS)]
     return res
 
